@@ -7,16 +7,19 @@
         dst_name_path = self.dest.split(sep); machine.get_state(dst_name_path)     ValueError for an
                                                      unregistered destination BEFORE anything is exited
         state_tree = build_state_tree(model.state)   the model's configuration AT THIS MOMENT
-        exit_partials  = scoped_exit of the states of that tree     → the state the model is in,
-                                                                      NOT `transition.source`
+        exit_partials  = scoped_exit of the states of that tree     → the state the model is in
         enter_partials = scoped_enter of the destination
     _change_state:  exit_partials; _update_model; enter_partials; _final_check → on_final
 
-  This is NOT the nested engine (`Model/Nested*.lean`, property C02, being built): it is the
-  depth-1 collapse of that one function, tied to HierarchicalMachine by trace equality in
-  harness/props/c09.py (`hflat` request).  Every engine function that does not reach `_change_state`
-  is shared with `Model/Core.lean` (same state type, same `sub` protocol); the functions below are the
-  call chain `_change_state ← execute ← … ← runHistory`, copied line by line.
+  Since /repo ba1cc46 `Transition._change_state` exits the state the model is in as well (it used to
+  exit `transition.source`: former finding F-C09-hsm-retrigger-exit), so the only difference left to
+  `TM.changeState` is the moment an unregistered destination is noticed (`Props/C09.lean: C09_hsm_flat`).
+
+  This is NOT the nested engine (`Model/Nested*.lean`, property C02): it is the depth-1 collapse of
+  that one function, tied to HierarchicalMachine by trace equality in harness/props/c09.py (`hflat`
+  request).  Every engine function that does not reach `_change_state` is shared with
+  `Model/Core.lean` (same state type, same `sub` protocol); the functions below are the call chain
+  `_change_state ← execute ← … ← runHistory`, copied line by line.
 -/
 import Model.Core
 
